@@ -395,6 +395,16 @@ inductive Phase where
   | bare
 deriving DecidableEq, Repr
 
+/-- is the hook of `_translate_module_warnings` installed? -/
+def Phase.translates : Phase → Bool
+  | .module | .parseInModule => true
+  | .parse | .bare => false
+
+/-- is the hook of `_drop_expression_warnings` installed? -/
+def Phase.drops : Phase → Bool
+  | .parse | .parseInModule => true
+  | .module | .bare => false
+
 /-- the display hook chain `_show_warnings_as` builds: where the warning is shown (`none`: not at all),
     and whether the once-registry entry is removed -/
 def hook (moduleId filename : Str) (fullMap : List Nat) : Phase → W → Option (Str × Nat) × Bool
@@ -418,8 +428,10 @@ deriving DecidableEq, Repr
 /-- `_compile_from_file` with a module path, as a plan of steps, each with the hook stack it runs under.
     `upToDate`: the module file exists and is not older than the template file (it is *reused*);
     `accepted`: the module loaded first has the current magic number and was generated from this template
-    file.  The whole body stands inside `with _translate_module_warnings(…)`; only the regeneration
-    stands inside `_drop_expression_warnings()` as well. -/
+    file (`module._template_filename == filename`, b4d0d5f).  There are two regeneration paths: the first
+    when the module file is missing or older than the template, the second when the loaded module is not
+    accepted.  The whole body stands inside `with _translate_module_warnings(…)`; each of the two
+    regenerations stands inside `with _drop_expression_warnings():` as well; the loads do not. -/
 def compileFromFilePlan (upToDate accepted : Bool) : List (LoadStep × Phase) :=
   (if upToDate then [] else [(.regen, .parseInModule)]) ++ [(.load, .module)]
     ++ (if accepted then [] else [(.regen, .parseInModule), (.load, .module)])
